@@ -215,10 +215,33 @@ func (s *Scratch) replayModel(rel string, m *Model) string {
 	os.WriteFile(mp, data, 0o644)
 	env := append(goEnv(), "VX_MODEL="+mp)
 	out, _, _ := runCmd(s.Repo, env, 5*time.Minute, "go", "test", "-v", "-vet=off", "-count=1", "-run", "^TestVXReplay$", "./"+rel)
+	first := ""
 	for _, l := range strings.Split(out, "\n") {
 		if strings.HasPrefix(l, "REPLAY: ") {
-			return strings.TrimPrefix(l, "REPLAY: ")
+			first = strings.TrimPrefix(l, "REPLAY: ")
+			break
 		}
+	}
+	if first == "passed" {
+		// the model may depend on the runtime's map iteration order, which cannot be forced: retry
+		out2, _, _ := runCmd(s.Repo, env, 5*time.Minute, "go", "test", "-v", "-vet=off", "-count=40", "-run", "^TestVXReplay$", "./"+rel)
+		n, bad := 0, ""
+		for _, l := range strings.Split(out2, "\n") {
+			if strings.HasPrefix(l, "REPLAY: ") {
+				n++
+				o := strings.TrimPrefix(l, "REPLAY: ")
+				if strings.HasPrefix(o, "assert-failed") || strings.HasPrefix(o, "panic") {
+					bad = o
+				}
+			}
+		}
+		if bad != "" {
+			return bad + fmt.Sprintf(" (in some of %d native runs: depends on the runtime's map iteration order)", n+1)
+		}
+		return "passed"
+	}
+	if first != "" {
+		return first
 	}
 	if len(out) > 600 {
 		out = out[len(out)-600:]
